@@ -97,6 +97,6 @@ pub fn def() -> PropertyDef {
         level: "exploration",
         rule: "random parameter sets (3 schemes, N=2..32 (thorough 128), 1..5 primes of 2..60 bits so residues take 1..8 bytes, all plain-modulus kinds, both flags) x 29 object kinds (parameters, modulus, plaintexts in both forms, secret / public / relinearization / Galois (subset or default) / key-switching keys seeded or not, ciphertexts in compact / full / selected-terms format in states {pk, sk-seeded, size 3, lower level, non-default representation}, 1-/2-/3-dimensional plaintext and ciphertext containers with 0..3 elements per dimension, generic Vec<Ciphertext>, raw polynomials, RNS-plaintext wrapper ciphertexts and keys) x term subsets (empty, all, random, unordered, duplicated). Oracle: returned count = announced size = bytes appended = bytes consumed with neighbours before and after in one stream; restored object equals the original field by field (seeded: equals expand_seed; terms: first polynomial restricted to the chosen coefficients in the coefficient domain); the same in a context rebuilt from the serialized parameters; later operations bit-identical. non-trivial: seeded, or some prime narrower than 8 bytes, or a container with >= 2 elements, or a size-3 / lower-level ciphertext.",
         assumptions: vec!["equality is over all public fields and every data word", "library randomness made replayable through hook H2"],
-        subs: vec![Sub::prop("roundtrip", 120_000, 2_000_000, 0.4, ser_case, oracle)],
+        subs: vec![Sub::prop("roundtrip", 250_000, 2_000_000, 0.4, ser_case, oracle)],
     }
 }
